@@ -7,7 +7,7 @@ LANE="$1"; ID="$2"; I="$3"; shift 3
 CHECKS="${*:-C01 C02 C03 C04 C05 C06 C07 C08 C09 C10 C11 C12 C13 C14 C15 C16 C17 C18 C19 C20}"
 S=/root/scratch/lane$LANE
 DIFF=/tmp/refac/$ID/out/refactor$I.diff
-OUT=/verif/refactors/$ID-$I
+OUT=/verif/refactors/$ID-$(( I + ${OUTOFFSET:-0} ))
 export CARGO_NET_OFFLINE=true
 [[ -f "$DIFF" ]] || { echo "no diff $DIFF"; exit 2; }
 mkdir -p "$OUT"
